@@ -1,11 +1,11 @@
 package main
 
 import (
-	"os"
 	"crypto/aes"
 	"encoding/binary"
 	"fmt"
 	"math/rand"
+	"os"
 	"sort"
 	"strings"
 	"time"
@@ -647,9 +647,9 @@ func histSuite(name string, quickN, thoroughN int) suiteFunc {
 }
 
 var schedKinds = map[string][]string{
-	"C03": {"copies", "consecutive"},
+	"C03": {"copies", "consecutive", "regressed"},
 	"C05": {"join-copies"},
-	"C07": {"copies", "consecutive"},
+	"C07": {"copies", "consecutive", "regressed"},
 	"C09": {"copies"},
 }
 
